@@ -70,6 +70,11 @@ CHECKS = {
    text="For the five stores: every primitive update is shown to be conditional on the version read for the very record written; versions and log indexes are shown to come from the primitive only; Watch is shown to register its listener before any snapshot read; watch goroutines are shown not to close twice, not to send after close, to guard every subscriber send with ctx.Done() behind a shared dispatcher, and to pair every lock. Linearizability and delivery are not decided.",
    note="Trusted: go/types, the occheck path enumerator (no inlining in store packages), the rule code. The double close of the v3 transaction store and the bare forwards of four stores found here were repaired (fix commits bf36202, e48fc62, 61b4e7b). Not covered: exits of a watch goroutine during replay that do not drain the per-watch channel (observed, documented in DESIGN.md, no rule).",
    ref="DESIGN.md §3 C15"),
+ "C03": dict(
+   technique="path-relation lint over resolved calls (boundary-aware subtree test), helper-shape check on enumerated paths, regexp-format rule for the Get filter, map-iteration-order rule (own-key writes inside map ranges, followed one call level), persisting decision table by case evaluation",
+   text="The clauses of the sequential-effect property that are visible in the code's shape are decided: the subtree relation goes through a boundary-aware helper whose body is checked, the Get filter ends in an element boundary, writes inside map ranges of the change pipeline are keyed by the iteration's own key (this one fails today: known finding F7), tombstones are filtered on read, and the store's persist decision table is complete. Equality with a reference model over histories is not decided.",
+   note="Trusted: go/types, occheck rules. The raw-prefix defects (cascade, pruning, Get filter) found here were repaired (fix commits 2029c13, 3279374). Known finding F7 (map-order dependent merge) is listed with 7 construct keys.",
+   ref="DESIGN.md §3 C03"),
 }
 
 def main():
